@@ -1,0 +1,48 @@
+//go:build verif
+
+// Contracts for package markdown, checked by /verif (govc). Comment-only.
+
+package markdown
+
+//@ -- mtab(mt): the core table the renderer is wrapped around
+//@ spec mtab(mt *MarkdownTable) *tabular.ATable = mt.Table.(*tabular.ATable)
+
+//@ -- ghost line log: one entry per emitted line with its number of raw pipes
+//@ ghost var mdLineN Int
+//@ ghost var mdLinePipes (Array Int Int)
+//@ ghost var mdPipes Int
+
+//@ pred mdCellsFresh(cells []tabular.Cell) = forall i int :: {cells[i].mustCalc} 0 <= i && i < len(cells) ==> !cells[i].mustCalc
+
+//@ func (*MarkdownTable).mdCellEscape
+//@   tags C08,C09
+//@   assigns nothing
+//@   ensures [no-raw-pipe-or-linefeed] pipes(result) == 0 && lfs(result) == 0 @C08
+
+//@ func (*MarkdownTable).mdPaddedCellEscape
+//@   tags C08,C09
+//@   requires 0 <= i && i < len(cells) && i < len(widths) && i < len(alignments) && mdCellsFresh(cells)
+//@   assigns nothing
+//@   ensures [no-raw-pipe] pipes(result) == 0 @C08
+
+//@ func (*MarkdownTable).emitRow
+//@   tags C08,C15,C09
+//@   requires mt != nil && columnCount >= 1 && columnCount <= 1099511627774 && mdCellsFresh(cells) && len(widths) >= columnCount && len(alignments) >= columnCount
+//@   requires [writer-ok] !Wfailed
+//@   assigns ghost Wn, ghost Wchunk, ghost Wfailed, ghost mdLineN, ghost mdLinePipes, ghost mdPipes
+//@   ensures [too-many-cells-refused] len(cells) > columnCount ==> result != nil && Wn == old(Wn) && mdLineN == old(mdLineN) @C08
+//@   ensures [failing-writer-surfaces] Wfailed ==> result != nil @C15
+//@   ensures [one-line-with-one-more-pipe-than-columns] result == nil ==> !Wfailed && mdLineN == old(mdLineN) + 1 && mdLinePipes === store(old(mdLinePipes), old(mdLineN), columnCount + 1) && Wchunk[Wn - 1] === "\n" @C08
+//@   call WriteString#1 before ghost mdPipes = 0
+//@   call WriteString#1 after ghost mdPipes = mdPipes + pipes(Wchunk[Wn - 1])
+//@   call Fprint#1 after ghost mdPipes = mdPipes + pipes(Wchunk[Wn - 1])
+//@   call Fprint#2 after ghost mdPipes = mdPipes + pipes(Wchunk[Wn - 1])
+//@   call WriteString#2 after ghost mdPipes = mdPipes + pipes(Wchunk[Wn - 1])
+//@   call WriteString#3 after ghost mdPipes = mdPipes + pipes(Wchunk[Wn - 1])
+//@   exit assert [pipe-count] result == nil ==> mdPipes == columnCount + 1 @C08
+//@   exit ghost mdLinePipes = (result == nil ? store(mdLinePipes, mdLineN, mdPipes) : mdLinePipes)
+//@   exit ghost mdLineN = (result == nil ? mdLineN + 1 : mdLineN)
+//@   loop#1 invariant 0 <= i && i <= max(len(cells) - 1, 0) && max == len(cells) && !Wfailed && mdPipes == 1 + i && (barCenter == " | " || barCenter == "|") && (barRight == " |" || barRight == "|")
+//@   loop#1 decreases len(cells) - i
+//@   loop#2 invariant len(cells) <= i && i <= columnCount && !Wfailed && mdPipes == 1 + i
+//@   loop#2 decreases columnCount - i
